@@ -4,7 +4,7 @@
 //   CASE <id> <program tokens ...> ; <query tokens ...>
 // program tokens (numbers are decimal doubles, parsed by strtod):
 //   cube sx sy sz c | tet | sphere r n | cyl h rlo rhi n | lshape a b h | torus R r n m
-//   tr x y z | rot x y z | sc x y z | add | sub | int | compose | dup | swap
+//   tr x y z | rot x y z | sc x y z | add | sub | int | compose | dup | swap | settol t | simplify t
 // queries (M = top of stack, N = the one below when present):
 //   meas                     volume/area/bbox/counts + export of M
 //   gap L1 L2 ...            MinGap(M, N, L) + export of N
@@ -127,6 +127,10 @@ int main() {
           if (tok == "sub") st.push_back(a - b);
           if (tok == "int") st.push_back(a ^ b);
           if (tok == "compose") st.push_back(Manifold::Compose({a, b}));
+        } else if (tok == "settol") {
+          st.back() = st.back().SetTolerance(num());
+        } else if (tok == "simplify") {
+          st.back() = st.back().Simplify(num());
         } else if (tok == "dup") {
           st.push_back(st.back());
         } else if (tok == "swap") {
